@@ -14,14 +14,54 @@ def _loop_parts(fn):
     for (h, body, backs) in loops:
         for b in body:
             t = fn.term(b)
-            if t["k"] == "Call" and (callee_of(t) or "").endswith("Iterator::next") and "slice" in t.get("callee_full", ""):
+            if t["k"] == "Call" and (callee_of(t) or "").endswith("Iterator::next") and ("slice" in t.get("callee_full", "") or "core::ops::Range<usize>" in t.get("callee_full", "")):
                 if outer is None or len(body) > len(outer[1]):
                     outer = (h, body, backs, b, t)
     if outer is None:
-        raise KeyError("no loop over a slice iterator in %s" % fn.npath)
+        raise KeyError("no loop over the message bytes (slice iterator or 0..len index range) in %s" % fn.npath)
     h, body, backs, nb, nt = outer
     sw = nt["target"]
-    return h, body, nb, nt, sw
+    kind = "slice" if "slice" in nt.get("callee_full", "") else "range"
+    if kind == "range":
+        _check_index_loop(fn, body, nb, nt)
+    return h, body, nb, nt, sw, kind
+
+
+def _check_index_loop(fn, body, nb, nt):
+    """`for i in 0..data.len() { .. data[i] .. }`: the range is exactly 0..len(message) and every read of the message in
+    the body is message[i] for the loop's own i (so each byte is folded once, in order)."""
+    from .mir import strip_refs, subterms, tstr, find_sub
+    from .dataflow import var_def_terms
+    it = strip_refs(fn.term_of_operand(nt["args"][0], nb))
+    defs = var_def_terms(fn, it[1]) if it[0] == "var" else [it]
+    ok = False
+    for d in defs:
+        r = find_sub(d, ("agg", "Range", ["$a", "$b"]))
+        if r is not None and r["$a"][:2] == ("c", 0):
+            e = strip_refs(r["$b"])
+            islen = (e[0] == "call" and e[1] and e[1].endswith("::len") and strip_refs(e[2][0])[:2] == ("arg", 1)) or (e[0] == "un" and e[1] == "PtrMetadata" and strip_refs(e[2])[:2] == ("arg", 1))
+            ok = ok or islen
+    if not ok or len(defs) != 1:
+        raise KeyError("the index loop of %s does not run over 0..len(message) (iterator: %s)" % (fn.npath, [tstr(d)[:80] for d in defs]))
+    item = lambda q: q[0] == "place" and tuple(q[2]) == ("as:Some", "0") and q[1][0] == "call" and q[1][3] == nb
+    nreads = 0
+    for b in body:
+        terms = [fn.term_of_rvalue(s["rv"], b) for s in fn.blocks[b]["stmts"] if s["k"] == "Assign"]
+        t = fn.term(b)
+        if t["k"] == "Call":
+            terms += [fn.term_of_operand(a, b) for a in t["args"]]
+        for tt in terms:
+            for q in subterms(tt):
+                if q[0] == "place" and strip_refs(q[1])[:2] == ("arg", 1):
+                    idx = [e for e in q[2] if isinstance(e, tuple) and e[0] == "idx"]
+                    if not idx:
+                        raise KeyError("the loop body of %s uses the message other than by message[i]" % fn.npath)
+                    for e in idx:
+                        nreads += 1
+                        if not item(strip_refs(e[1])):
+                            raise KeyError("the loop body of %s reads message[%s], not message[i] for the loop's own index" % (fn.npath, tstr(e[1])[:60]))
+    if nreads == 0:
+        raise KeyError("the index loop of %s never reads the message" % fn.npath)
 
 
 def ref_step(crc_bits, byte_bits, poly, width):
@@ -50,7 +90,7 @@ def _run_crc(F, R, name, width, poly, exit_check):
 
 def _run_crc_inner(F, R, fn, name, width, poly, exit_check):
     I = Interp(F, mode="bv", max_paths=20000, max_steps=2000000)
-    h, body, nb, nt, sw = _loop_parts(fn)
+    h, body, nb, nt, sw, kind = _loop_parts(fn)
     # the running remainder: the integer local initialised before the loop, updated inside it and read after it
     before = fn.reach([0], cut_blocks=[nb])
     cands = []
@@ -100,6 +140,12 @@ def _run_crc_inner(F, R, fn, name, width, poly, exit_check):
         item = byte
     # iterator local etc. are irrelevant inside the body; args: data pointer unknown
     preset = {cl: crc0, dest: some(item), 1: TOP}
+    if kind == "range":
+        # `for i in 0..len`: i is any index, the message an array all of whose bytes are the symbolic byte (that every
+        # read is message[i] for this i was checked structurally)
+        mcell = I.heap_alloc(st, ("arrtop", 0, 1 << 62, byte))
+        mptr = ptr(mcell[1], mcell[2], (), (const(0, 64), mk_int(64, False, None, 0, 1 << 62)))
+        preset = {cl: crc0, dest: some(mk_int(64, False, None, 0, (1 << 62) - 1)), 1: mptr}
     outs = I.run(fn, [], st, 0, start=sw, preset=preset, stop=(nb,))
     ref = ref_step(bits_of(crc0)[:width], bits_of(byte), poly, width)
     npaths = 0
